@@ -187,6 +187,9 @@ func cmdCheck(args []string) int {
 		if *writeBind {
 			prog.collectBindings(cfg.ID, newBind)
 		} else {
+			for _, n := range prog.applyFuncRenames(cfg.ID, recordedBind) {
+				fmt.Println("NOTE", n)
+			}
 			for _, n := range prog.applyRenames(cfg.ID, recordedBind) {
 				fmt.Println("NOTE", n)
 			}
